@@ -39,13 +39,24 @@ def register_tree(tree):
 
 
 def get_tree(tid):
-    """DSL tree for `tid` or None for fixture trees (ids starting with 'F:' are paths below /repo/test)."""
+    """DSL tree for `tid` or None for fixture trees (ids starting with 'F:' are paths below /repo/test).
+    Trees are built once per process, outside tracing, and treated as read-only."""
     if tid in _EXTRA_TREES:
         return _EXTRA_TREES[tid]
+    with notrace():
+        t = _get_tree(tid)
+        if t is not None:
+            _EXTRA_TREES[tid] = t
+    return t
+
+
+def _get_tree(tid):
     if tid.startswith("R") and tid[1:].isdigit():
         from .trees import gen
 
-        return gen.random_tree(int(tid[1:]))
+        with notrace():  # (generation uses `random`; it must not run under tracing)
+            _EXTRA_TREES[tid] = gen.random_tree(int(tid[1:]))
+        return _EXTRA_TREES[tid]
     if tid.startswith("F:"):
         return None
     if tid.startswith("E_") and ":" not in tid:
